@@ -183,6 +183,12 @@ func VerifC06LastVoteproofs() {
 		now := verifC06PosOfVoteproof(capvp)
 		if cur != nil {
 			l := *cur
+			if !isnew {
+				// reading used: "moves" are the updates judged new; a voteproof the store itself judged
+				// not new (it may still fill a missing INIT/ACCEPT voteproof of the stored point) leaves
+				// the position where it was
+				verifrt.Assert(now == l, "C06.lastvoteproofs.position-moves-only-by-a-voteproof-judged-new")
+			}
 			verifrt.Assert(now.h >= l.h, "C06.lastvoteproofs.never-lower-height")
 			if o.h < l.h {
 				verifrt.Assert(!isnew, "C06.lastvoteproofs.lower-height-not-new")
